@@ -58,10 +58,10 @@ CHECKS = {
          'Every chain of 1-3 map-rooted layers over keys {a,b}, scalars {1,x,$required} up to 4 (thorough 5) nodes: marker paths of bklr output equal those of the merged document, nothing else is present, empty iff none, idempotent, and bkl refuses with a required-field error exactly when the output is non-empty; CLI with filename inheritance in format mixes.',
          'In-process runs use cmd/bklr/required.go copied from the working tree at build time.', '4/C17'),
  'C18': ('E5', 'exhaustive product of root spellings x entry spellings x escape vectors x decoy states through the real CLI, with an inotify monitor on the files that must never be read',
-         '5 root spellings x 4 entry spellings x 16 escape vectors x {escape to an unrelated directory, escape to a sibling whose name extends the root name, in-root twin} x 4 decoy states (every escaping case also with the decoys in json, toml and jsonl), plus nested library SetRoot calls, a read before SetRoot, and a process that changes its working directory between two evaluations (4 root/path spellings, own subprocess): no IN_OPEN/IN_ACCESS on any file outside the root, status and stdout independent of the decoy, escapes fail, twins succeed with the expected output; -r / runs are the control proving each vector reaches the decoy when unconfined (and that the monitor sees it).',
+         '5 root spellings x 4 entry spellings x 18 escape vectors x {escape to an unrelated directory, escape to a sibling whose name extends the root name, in-root twin} x 4 decoy states (every escaping case also with the decoys in json, toml and jsonl), plus nested library SetRoot calls, a read before SetRoot, and a process that changes its working directory between two evaluations (4 root/path spellings, own subprocess): no IN_OPEN/IN_ACCESS on any file outside the root, status and stdout independent of the decoy, escapes fail, twins succeed with the expected output; -r / runs are the control proving each vector reaches the decoy when unconfined (and that the monitor sees it).',
          'stat/readlink/directory listing do not count as reading contents.', '4/C18'),
  'C20': ('E5', 'exhaustive enumeration of argument vectors over an alphabet of argument kinds, observed by a recording stand-in program',
-         'Every argument vector of length 0-3 (thorough 4) over 27 argument kinds (incl. .yml-backed and .json-backed layers, an empty argument, an argument with blanks/unicode, --, four kinds of failing evaluation, two files with the same base name in different directories, names with glob metacharacters, a symlinked layer) and flag vectors of length 5-8 with one (two) non-flag arguments at every position, invoked as recb (symlink to bklb) and kubectl-bkl: same argument count, non-file arguments byte-identical in place, file arguments replaced by a file of the named format holding the evaluated layers, wrapped program not run when evaluation fails.',
+         'Every argument vector of length 0-2 (thorough 3) over 28 argument kinds and of length 3 (thorough 4) over the 18 core kinds (incl. .yml-backed and .json-backed layers, an empty argument, an argument with blanks/unicode, --, four kinds of failing evaluation, two files with the same base name in different directories, names with glob metacharacters, a symlinked layer) and flag vectors of length 5-8 with one (two) non-flag arguments at every position, invoked as recb (symlink to bklb) and kubectl-bkl: same argument count, non-file arguments byte-identical in place, file arguments replaced by a file of the named format holding the evaluated layers, wrapped program not run when evaluation fails.',
          'File content is parsed with encoding/json, yaml.v3, go-toml called directly and compared with the known evaluated layers.', '4/C20'),
  'C19': ('E3', 'explicit-state breadth-first search over API histories with a reflective whole-Parser state key, plus stateless enumeration of all histories without de-duplication against a never-observed reference parser',
          'Operation alphabet {4 template merges, MergeFileLayers, Documents, Output(json), Output(yaml), OutputDocuments, OutputToWriter}; all histories of length <=5 (thorough 6) without de-duplication; BFS to length 8 / 3 merges de-duplicated on a reflective dump of the Parser (unexported fields, pointer sharing) for 11 (thorough: 5 035: every 4-subset of the 19 general templates and each purpose-built group completed by every choice of general ones) template sets; one fresh process per (format, document) whose first, second, second-parser and post-$encode outputs must be the same bytes as in the long-running worker. Invariants: observations are self-loops, observations are a function of state, merges after observations behave as if never observed, returned bytes are stable, Documents() equals the merged unevaluated model tree.',
